@@ -3826,9 +3826,13 @@ void  ADFI_file_and_machine_compare(
    } /** end if **/
 
    if( ADF_file[file_index].format  == ADF_this_machine_format &&
-       ADF_file[file_index].os_size == ADF_this_machine_os_size ) {
+       ADF_file[file_index].os_size == ADF_this_machine_os_size &&
+       tokenized_data_type == NULL ) {
       *compare = 1 ;
    } else if( ADF_file[file_index].format  == ADF_this_machine_format ) {
+	/** The sizes of a data type come from the file header: data is
+	    moved without translation only if they are this machine's,
+	    whatever the header says about the OS size. **/
         /** If the file and machine binary type are the same and only the
 	    sizes may be different (like long is 32 or 64), then if all the
 	    sizes are the same then no conversion is necessary and ws can avoid
